@@ -6,10 +6,12 @@
 -/
 import NutsModel.C02.Token
 import NutsModel.C02.History
+import NutsModel.C02.Jar
 import NutsModel.Facts.C02
 import NutsProofs.Lemmas.C02
 import NutsProofs.Lemmas.C02b
 import NutsProofs.Lemmas.C02c
+import NutsProofs.Lemmas.C02d
 
 namespace Nuts.C02.Props
 open Nuts.C02
@@ -759,5 +761,246 @@ theorem plain_introspection_members (cfg : Cfg) (hcfg : cfg.reserved = Facts.C02
 example : objGet (marshal Facts.C02.marshalAssignOrder
       { active := true, cnf := some "{\"jkt\":\"KEY\"}", additional := [("cnf", "{\"jkt\":\"ATTACKER\"}")] }) "cnf"
     = some "{\"jkt\":\"ATTACKER\"}" := by decide
+
+/-! ### Deepening round: request objects (jar.go), the authorization endpoint and the grant_type switch -/
+
+/-- `jar.Parse` as `jarParse` mirrors it: the if-conditions, the `request_uri_method` switch (its case constants and
+    the error of every arm), the ordered calls, and the arguments handed to `validate` (raw object, client_id OF THE QUERY) -/
+theorem fact_jar_parse_shape :
+    Facts.C02.condsJarParse =
+      ["q.Get(oauth.RequestParam); rawRequestObject != \"\"", "q.Get(oauth.RequestURIParam) != \"\"",
+       "q.Get(oauth.RequestURIParam); requestURI != \"\"", "err != nil", "err != nil"] ∧
+    Facts.C02.switchJarParse =
+      ["switch q.Get(oauth.RequestURIMethodParam)", "case \"\", \"get\" => error:oauth.InvalidRequestURI",
+       "case \"post\" => error:oauth.InvalidRequestURI", "default => error:oauth.InvalidRequestURIMethod"] ∧
+    Facts.C02.chainJarParse =
+      ["Get", "Get", "Get", "Get", "IAMClient.RequestObjectByGet", "IAMClient.RequestObjectByPost", "validate", "Get"] ∧
+    Facts.C02.jarValidateArgs = ["ctx", "rawRequestObject", "q.Get(oauth.ClientIDParam)"] := by decide
+
+/-- `jar.validate` as `jarValidate` mirrors it: signature first, then the EXACT comparison of the signed client_id claim
+    with the query's client_id, then the client's configuration, the kid lookup and the thumbprint comparison -/
+theorem fact_jar_validate_shape :
+    Facts.C02.condsJarValidate =
+      ["err != nil", "err != nil", "clientId != params.get(oauth.ClientIDParam)", "err != nil", "!exists",
+       "compareThumbprint(key, publicKey); err != nil"] ∧
+    Facts.C02.chainJarValidate =
+      ["ParseJWT", "ResolveKeyByID", "WithValidate", "AsMap", "parseJWTClaims", "get", "IAMClient.OpenIDConfiguration",
+       "LookupKeyID", "compareThumbprint"] ∧
+    Facts.C02.condsCompareThumbprint =
+      ["err != nil", "err != nil", "err != nil", "!bytes.Equal(thumbprintLeft, thumbprintRight)"] := by decide
+
+/-- `oauthParameters.get` as `pget` mirrors it: a string, or the only element of a one-element `[]string` -/
+theorem fact_params_get :
+    Facts.C02.condsParamsGet = ["!ok", "len(typedValue) == 1"] ∧
+    Facts.C02.switchParamsGet =
+      ["typeswitch", "case string => return:typedValue", "case []string => return:typedValue[0]"] := by decide
+
+/-- `HandleAuthorizeRequest` / `handleAuthorizeRequest` as `authorizeEndpoint` / `authorizeDispatch` mirror them, and the
+    three parameter checks of the wallet leg that `fromVerifierPrefix` mirrors -/
+theorem fact_authorize_dispatch :
+    Facts.C02.condsHandleAuthorizeRequest = ["!r.auth.AuthorizationEndpointEnabled()", "err != nil", "err != nil"] ∧
+    Facts.C02.chainHandleAuthorizeRequest =
+      ["AuthorizationEndpointEnabled", "subjectExists", "subjectToBaseURL", "oauthAuthorizationServerMetadata",
+       "handleAuthorizeRequest"] ∧
+    Facts.C02.switchAuthorizeDispatch =
+      ["switch requestObject.get(oauth.ResponseTypeParam)",
+       "case oauth.CodeResponseType => call:handleAuthorizeRequestFromHolder",
+       "case oauth.VPTokenResponseType => call:handleAuthorizeRequestFromVerifier",
+       "default => error:oauth.UnsupportedResponseType"] ∧
+    Facts.C02.authorizeJarParseArgs = ["ctx", "ownMetadata", "request.Query()"] ∧
+    Facts.C02.authorizeHolderArgs = ["ctx", "subject", "requestObject"] ∧
+    Facts.C02.condsFromVerifier.take 3 =
+      ["responseMode != responseModeDirectPost", "responseURI == \"\"", "state == \"\""] := by decide
+
+/-- the `grant_type` switch of `HandleTokenRequest` as `tokenEndpoint` mirrors it -/
+theorem fact_token_dispatch :
+    Facts.C02.switchHandleTokenRequest =
+      ["switch request.Body.GrantType",
+       "case oauth.AuthorizationCodeGrantType => call:handleAccessTokenRequest",
+       "case oauth.PreAuthorizedCodeGrantType => error:oauth.UnsupportedGrantType",
+       "case oauth.VpTokenGrantType => call:handleS2SAccessTokenRequest",
+       "default => error:oauth.UnsupportedGrantType"] := by decide
+
+/-- the constants behind the names: generated value = the literal the model (and the RFCs) use; the three grant names are
+    pairwise distinct, so no request can take two arms -/
+theorem fact_oauth_names :
+    Facts.C02.grantAuthorizationCode = "authorization_code" ∧ Facts.C02.grantVpToken = "vp_token-bearer" ∧
+    Facts.C02.grantPreAuthorizedCode = "urn:ietf:params:oauth:grant-type:pre-authorized_code" ∧
+    Facts.C02.responseTypeCode = "code" ∧ Facts.C02.responseTypeVpToken = "vp_token" ∧
+    Facts.C02.responseModeDirectPost = "direct_post" ∧
+    Facts.C02.oauthParamNames =
+      ["RequestParam=request", "RequestURIParam=request_uri", "RequestURIMethodParam=request_uri_method",
+       "ClientIDParam=client_id", "ResponseTypeParam=response_type", "RedirectURIParam=redirect_uri", "ScopeParam=scope",
+       "StateParam=state", "CodeChallengeParam=code_challenge", "CodeChallengeMethodParam=code_challenge_method",
+       "ResponseModeParam=response_mode", "ResponseURIParam=response_uri"] ∧
+    Facts.C02.oauthErrorCodes =
+      ["InvalidRequest=invalid_request", "InvalidRequestURI=invalid_request_uri",
+       "InvalidRequestURIMethod=invalid_request_uri_method", "InvalidRequestObject=invalid_request_object",
+       "ServerError=server_error", "UnsupportedResponseType=unsupported_response_type",
+       "UnsupportedGrantType=unsupported_grant_type"] := by decide
+
+/-- the grant names of the CURRENT source -/
+def grantNamesToday : GrantNames :=
+  ⟨Facts.C02.grantAuthorizationCode, Facts.C02.grantPreAuthorizedCode, Facts.C02.grantVpToken⟩
+
+/-- **request object accepted only if.** Whatever the query, the remote answers and the key material: parameters come
+    out of `jar.Parse` only when exactly one of `request` / `request_uri` is given, the object is (for `request_uri`) what
+    the announced method returned, its signature verified under the key the resolver knows for its kid, the SIGNED
+    client_id claim equals the client_id of the query, and the client's own OpenID configuration lists that kid with a key
+    of the same thumbprint. The parameters are the signed claims, nothing from the query. -/
+theorem jar_parse_only_if (env : JarEnv) (q : JarQuery) (calls : List JarCall) (p : Params)
+    (h : jarParse env q = (calls, .ok p)) : JarAccepted env q p :=
+  jarParse_ok env q calls p h
+
+/-- **what the endpoint does on the network before it trusts anybody** (every outcome, errors included): at most one
+    fetch, of the announced `request_uri` by the announced method; the client's configuration is requested at most once,
+    only for the query's client id, and only after a request object verified that names this client id. -/
+theorem jar_parse_remote_calls (env : JarEnv) (q : JarQuery) : JarCallsOK env q (jarParse env q).1 :=
+  jarParse_calls env q
+
+/-- **authorization request line → session (end to end).** A 302 of the authorization endpoint implies: the endpoint is
+    enabled, the tenant exists, the request object was accepted (`JarAccepted`), its signed `response_type` is `code`,
+    and - composing with `authorize_request_only_if` - the signed `aud` is exactly this tenant's issuer URL, the signed
+    PKCE challenge is non-empty with method S256, the signed scope is configured, and the session stored under the fresh
+    state carries the SIGNED client id (= the query's), scope, challenge and state, and all definitions of that scope. -/
+theorem authorize_endpoint_only_if (cfg : Cfg) (enabled : Bool) (env : JarEnv) (w w' : World) (now : Nat) (r : AuthzHttp)
+    (calls : List JarCall) (out : AuthReqOut)
+    (h : authorizeEndpoint cfg enabled env w now r = (w', calls, .ok out)) :
+    enabled = true ∧ r.subject ∈ cfg.subjects ∧
+    ∃ p defs, JarAccepted env r.query p ∧ pget p "response_type" = "code" ∧
+      pget p "redirect_uri" ≠ "" ∧ pget p "aud" = cfg.issuerURL r.subject ∧ pget p "code_challenge" ≠ "" ∧
+      pget p "code_challenge_method" = "S256" ∧ cfg.definitions (pget p "scope") = some defs ∧
+      w'.states = w.states.put now cfg.stateTtl out.state
+        { clientId := r.query.clientId, scope := pget p "scope", ownSubject := r.subject,
+          challenge := pget p "code_challenge", method := "S256", clientState := pget p "state",
+          consumer := ⟨defs, [], [], 0⟩ } ∧
+      w'.oauthNonces = w.oauthNonces.put now cfg.oauthNonceTtl out.nonce out.state ∧
+      w'.tokens = w.tokens ∧ w'.codes = w.codes := by
+  unfold authorizeEndpoint at h
+  split at h
+  · simp at h
+  · rename_i hen
+    split at h
+    · simp at h
+    · rename_i hsub
+      split at h
+      · simp at h
+      · simp at h
+      · rename_i cs p hjar
+        simp only [Prod.mk.injEq] at h
+        have hd : authorizeDispatch cfg w now r.subject p = (w', .ok out) := by
+          rw [← h.1, ← h.2.2]
+        obtain ⟨hrt, hreq⟩ := authorizeDispatch_ok cfg w w' now r.subject p out hd
+        have hacc := jarParse_ok env r.query cs p hjar
+        obtain ⟨hredir, haud, hch, hm, defs, hdefs, _, _, hst, hno, htok, hco⟩ :=
+          authorize_request_only_if cfg w w' now (toAuthReq r.subject p) out hreq
+        have hcid : pget p "client_id" = r.query.clientId := by
+          obtain ⟨_, _, _, _, _, _, hc, _⟩ := hacc
+          exact hc
+        refine ⟨by cases enabled <;> simp_all, Decidable.not_not.mp hsub, p, defs, hacc, hrt, hredir, haud, hch, hm, hdefs,
+          ?_, hno, htok, hco⟩
+        rw [hst]
+        simp only [toAuthReq, hcid]
+
+/-- **no trace of a refused authorization request.** Whatever goes wrong - endpoint disabled, unknown tenant, any
+    request-object defect, unsupported response type, any parameter defect of the holder leg - an error answer leaves
+    every session store exactly as it was. -/
+theorem authorize_endpoint_error_leaves_state (cfg : Cfg) (enabled : Bool) (env : JarEnv) (w w' : World) (now : Nat)
+    (r : AuthzHttp) (calls : List JarCall) (e : String)
+    (h : authorizeEndpoint cfg enabled env w now r = (w', calls, .err e)) : w' = w := by
+  unfold authorizeEndpoint at h
+  split at h
+  · simp only [Prod.mk.injEq] at h; exact h.1.symm
+  · split at h
+    · simp only [Prod.mk.injEq] at h; exact h.1.symm
+    · split at h
+      · simp only [Prod.mk.injEq] at h; exact h.1.symm
+      · simp only [Prod.mk.injEq] at h; exact h.1.symm
+      · rename_i cs p _
+        simp only [Prod.mk.injEq] at h
+        exact authorizeDispatch_err_unchanged cfg w w' now r.subject p e (by rw [← h.1, ← h.2.2])
+
+/-- **token endpoint: request line → decision (end to end).** A 200 of `HandleTokenRequest` implies the tenant exists
+    and the request took exactly one of the two grant arms, whose full conjunction holds: `grant_type` equal to the
+    authorization-code name and everything `code_token_only_if` states, or equal to the vp_token-bearer name (and to
+    neither other name) and everything `s2s_token_only_if` states. No other `grant_type` value yields a token. -/
+theorem token_endpoint_only_if (cfg : Cfg) (n : GrantNames) (sha : String → String) (w w' : World) (now : Nat)
+    (subject g : String) (s2s : S2SReq) (code : CodeReq) (resp : TokenResponse)
+    (hchk : cfg.emptyVpChecked = true) (httl : cfg.nonceTtl ≠ 0) (hwf : ∀ vp ∈ s2s.vps, vp.signer ≠ some "")
+    (h : tokenEndpoint cfg n sha w now subject g s2s code = (w', .ok resp)) :
+    subject ∈ cfg.subjects ∧
+    ((g = n.authorizationCode ∧
+        ∃ c v session, CodeChecked cfg sha w now { code with subject := subject } c v session ∧
+          CodeEffect cfg w w' now { code with subject := subject } c session resp) ∨
+     (g = n.vpToken ∧ g ≠ n.authorizationCode ∧ g ≠ n.preAuthorizedCode ∧
+        ∃ s d, S2SChecked cfg w now { s2s with subject := subject } s d ∧
+          S2SEffect cfg w w' now { s2s with subject := subject } d resp)) := by
+  unfold tokenEndpoint at h
+  split at h
+  · simp at h
+  · rename_i hsub
+    refine ⟨Decidable.not_not.mp hsub, ?_⟩
+    by_cases hg1 : g = n.authorizationCode
+    · have hc : classifyGrant n g = .authorizationCode := by unfold classifyGrant; rw [if_pos hg1]
+      rw [hc] at h
+      exact .inl ⟨hg1, code_token_only_if cfg sha w w' now _ resp h⟩
+    · by_cases hg2 : g = n.preAuthorizedCode
+      · have hc : classifyGrant n g = .preAuthorizedCode := by unfold classifyGrant; rw [if_neg hg1, if_pos hg2]
+        rw [hc] at h
+        simp at h
+      · by_cases hg3 : g = n.vpToken
+        · have hc : classifyGrant n g = .vpToken := by unfold classifyGrant; rw [if_neg hg1, if_neg hg2, if_pos hg3]
+          rw [hc] at h
+          exact .inr ⟨hg3, hg1, hg2, s2s_token_only_if cfg w w' now _ resp hchk httl hwf h⟩
+        · have hc : classifyGrant n g = .other := by unfold classifyGrant; rw [if_neg hg1, if_neg hg2, if_neg hg3]
+          rw [hc] at h
+          simp at h
+
+/-- **any other grant_type: an error and nothing changes** (case variants, padded names, lists, the empty string,
+    refresh_token, pre-authorized_code, …) -/
+theorem token_endpoint_other_grant_rejected (cfg : Cfg) (n : GrantNames) (sha : String → String) (w : World) (now : Nat)
+    (subject g : String) (s2s : S2SReq) (code : CodeReq) (h1 : g ≠ n.authorizationCode) (h2 : g ≠ n.vpToken) :
+    ∃ e, tokenEndpoint cfg n sha w now subject g s2s code = (w, .err e) := by
+  unfold tokenEndpoint
+  split
+  · exact ⟨_, rfl⟩
+  · by_cases hp : g = n.preAuthorizedCode
+    · have hc : classifyGrant n g = .preAuthorizedCode := by unfold classifyGrant; rw [if_neg h1, if_pos hp]
+      rw [hc]; exact ⟨_, rfl⟩
+    · have hc : classifyGrant n g = .other := by unfold classifyGrant; rw [if_neg h1, if_neg hp, if_neg h2]
+      rw [hc]; exact ⟨_, rfl⟩
+
+/-! non-vacuity: a signed request object fetched by POST is accepted and opens a session; the same object under another
+    client id of the query, or from a client whose configuration lists another key under the kid, is refused; the
+    vp_token-bearer request of the open-finding witness passes the grant_type switch, its case variant does not -/
+private def demoClaims : Params :=
+  [("aud", .strs ["https://as/oauth2/alpha"]), ("client_id", .str "https://c/oauth2/c1"), ("code_challenge", .str "ch"),
+   ("code_challenge_method", .str "S256"), ("exp", .other), ("redirect_uri", .str "https://c/cb"),
+   ("response_type", .str "code"), ("scope", .str "care"), ("state", .str "cs")]
+
+private def demoEnv (thumbInConfig : String) : JarEnv :=
+  { fetchGet := fun _ => none,
+    fetchPost := fun u => if u = "https://c/r.jwt" then some "RAW" else none,
+    parse := fun raw => if raw = "RAW" then some ⟨"kid-1", "K1", demoClaims⟩ else none,
+    config := fun c => if c = "https://c/oauth2/c1" then some [("old", "K0"), ("kid-1", thumbInConfig)] else none }
+
+private def demoQuery (client : String) : AuthzHttp :=
+  ⟨"alpha", ⟨"", "https://c/r.jwt", "post", client⟩⟩
+
+example : (authorizeEndpoint witnessCfg true (demoEnv "K1") {} 100 (demoQuery "https://c/oauth2/c1")).2 =
+    ([.post "https://c/r.jwt", .config "https://c/oauth2/c1"], .ok ⟨"st#0", "on#0", "organization"⟩) := by decide
+
+example : (authorizeEndpoint witnessCfg true (demoEnv "K1") {} 100 (demoQuery "https://c/oauth2/C1")).2 =
+    ([.post "https://c/r.jwt"], .err "invalid_request_object/client_id-claim") := by decide
+
+example : (authorizeEndpoint witnessCfg true (demoEnv "K2") {} 100 (demoQuery "https://c/oauth2/c1")).2 =
+    ([.post "https://c/r.jwt", .config "https://c/oauth2/c1"], .err "invalid_request_object/key-mismatch") := by decide
+
+example : (tokenEndpoint witnessCfg grantNamesToday (fun v => v) {} 100 "alpha" "vp_token-bearer" witnessReq
+      ⟨"", none, none, none, .absent, []⟩).2 =
+      .ok { token := "tok#0", tokenType := "Bearer", dpopKid := none, scope := "care", expiresIn := 900 } ∧
+    (tokenEndpoint witnessCfg grantNamesToday (fun v => v) {} 100 "alpha" "VP_TOKEN-BEARER" witnessReq
+      ⟨"", none, none, none, .absent, []⟩).2 = .err "unsupported_grant_type/not-supported" := by
+  refine ⟨by decide, by decide⟩
 
 end Nuts.C02.Props
